@@ -71,6 +71,17 @@ func stubFacts(s *src, f *facts) {
 			}
 		}
 	}
+	// … and that is the ONLY thing the id ever is: no second assignment to it, no assignment to a `.Call` member
+	// (an id inherited from the context of the call being handled, a counter, a cache, …)
+	if callID != "" {
+		for _, a := range all[*ast.AssignStmt](body, nil) {
+			for _, l := range a.Lhs {
+				if ls := s.str(l); (ls == callID && ast.Node(a) != idStmt) || strings.HasSuffix(ls, ".Call") {
+					callID = ""
+				}
+			}
+		}
+	}
 	f.b("stubCallIdFresh", callID != "", s.pos(idStmt))
 	// request literal
 	reqLit := first(allShallow(body, func(c *ast.CompositeLit) bool { return strings.HasPrefix(s.str(c.Type), "utils.Request[") }))
